@@ -434,7 +434,7 @@ def replay_kkt(args):
                 variants += kkt_options(inst, real)
             for o in variants:
                 okw = {'option': opt_name(o)} if o else {}
-                fr = fixed_run(inst, real, xstar, ystar, nit=4 if o and 'scale' not in o else 3, opts=o)
+                fr = fixed_run(inst, real, xstar, ystar, nit=4 if real == 'pdhg' else 3, opts=o)
                 out['counts'].append(([real, inst['tag'], inst['tau'], inst['sig'], 'fixed', xstar, ystar, o], True))
                 sg = sig_of(real, 'fixed-point', functional=fk, **okw)
                 detail = dict(base, real=real, xstar=xstar, ystar=ystar, opts=o)
@@ -456,7 +456,8 @@ def replay_kkt(args):
         if r0 >= MIN_KKT0:
             for real in reals:
                 runs = [(Nn, None) for Nn in ([50, 200] if well_conditioned(inst) else [200])]
-                runs += [(200, {'scale': v}) for v in ([SL.SCALES[h % 3]] if quick else SL.SCALES)]
+                if real == sol or not quick:
+                    runs += [(200, {'scale': v}) for v in ([SL.SCALES[h % 3]] if quick else SL.SCALES)]
                 runs += [(200, o) for o in kkt_options(inst, real)]
                 for Nn, o in runs:
                     okw = {'option': opt_name(o)} if o else {}
@@ -598,7 +599,7 @@ def kkt_case(args):
         # a keyword option / dyadic scaling drawn per case (the plain call is the most frequent)
         o = rnd.choice([None, None, {'scale': rnd.choice(SL.SCALES)}] + kkt_options(inst, real))
         okw = {'option': opt_name(o)} if o else {}
-        fr = fixed_run(inst, real, xstar, ystar, nit=4 if o and 'scale' not in o else 3, opts=o)
+        fr = fixed_run(inst, real, xstar, ystar, nit=4 if real == 'pdhg' else 3, opts=o)
         detail = {'inst': inst, 'conc': 'rn', 'stage': 'relational', 'real': real, 'xstar': xstar, 'ystar': ystar,
                   'opts': o}
         if fr['err']:
@@ -707,7 +708,7 @@ def run(ctx):
         souts = pool.map(smooth_case, stasks, chunksize=8)
         pouts = pool.map(power_case, [base + 900000 + i for i in range(200 if quick else 4000)], chunksize=16)
         ktasks = [(s, base + 500000 + 1000 * si + i, quick) for si, s in enumerate(KKT_SOLVERS)
-                  for i in range(30 if quick else 500)]
+                  for i in range(20 if quick else 500)]
         couts = pool.map(kkt_case, ktasks, chunksize=4)
     finally:
         pool.close()
@@ -809,7 +810,7 @@ def replay(body):
     inst = d['inst']
     print('instance :', inst['solver'], inst['tag'])
     if clause == 'fixed-point':
-        fr = fixed_run(inst, d['real'], d['xstar'], d['ystar'], nit=4, opts=d.get('opts'))
+        fr = fixed_run(inst, d['real'], d['xstar'], d['ystar'], nit=4 if d['real'] == 'pdhg' else 3, opts=d.get('opts'))
         xs = SL.vec(d['xstar'])
         print('KKT point:', xs, 'observed:', [v.tolist() for v in fr['its']], fr['err'])
         bad = bool(fr['err']) or any(not np.allclose(v, xs, rtol=0, atol=2.0 ** -21) for v in fr['its'] + [fr['x']])
